@@ -679,7 +679,7 @@ class Executor(Engine):
         """VCs of one real function (ast.FunctionDef) against its contract"""
         c = self.contracts[qual]
         self.cur = c
-        c.short = qual.split(':')[1]
+        c.short = qual.split(':')[1].replace('@', '~')   # '~tag' marks a specialised contract ('@' is the line separator in names)
         c.qual = qual
         n0 = len(self.obls)
         self.side_n = 0
